@@ -119,4 +119,27 @@ example : Impl.run env0 20 (.seq [.PUSH .int (.num .int (-3)), .PUSH .int (.num 
     = .ok [.some (.pair (.num .int 3) (.num .nat 2))] :=
   run_ok env0 20 _ [] _ (by simp [Spec.eval, Spec.evalSeq, Spec.step, Spec.edivV, Spec.edivTy, Spec.numOk, Res.bind])
 
+-- sets and maps: ordered insertion in the middle, membership of the last element, removal, lookup of a bound and of an
+-- unbound key, GET_AND_UPDATE returning the old binding
+def set13 : Val := .set .int [.num .int 1, .num .int 3]
+def mapAB : Val := .map .string .nat [.pair (.str [97]) (.num .nat 1), .pair (.str [98]) (.num .nat 2)]
+example : Spec.eval true env0 20
+    (.seq [.PUSH (.set .int) set13, .PUSH .bool (.bool true), .PUSH .int (.num .int 2), .UPDATE, .DUP, .PUSH .int (.num .int 3), .MEM]) []
+    = .ok [.bool true, .set .int [.num .int 1, .num .int 2, .num .int 3]] := by rfl
+example : Spec.eval true env0 20
+    (.seq [.PUSH (.set .int) set13, .PUSH .bool (.bool false), .PUSH .int (.num .int 1), .UPDATE, .SIZE]) [] = .ok [.num .nat 1] := by rfl
+example : Spec.eval true env0 20
+    (.seq [.PUSH (.map .string .nat) mapAB, .DUP, .PUSH .string (.str [98]), .GET, .SWAP, .PUSH .string (.str [97, 97]), .GET]) []
+    = .ok [.none .nat, .some (.num .nat 2)] := by rfl
+example : Spec.eval true env0 20
+    (.seq [.PUSH (.map .string .nat) mapAB, .PUSH (.option .nat) (.none .nat), .PUSH .string (.str [97]), .GET_AND_UPDATE]) []
+    = .ok [.some (.num .nat 1), .map .string .nat [.pair (.str [98]) (.num .nat 2)]] := by rfl
+example : Impl.run env0 20
+    (.seq [.EMPTY_SET .nat, .PUSH .bool (.bool true), .PUSH .nat (.num .nat 5), .UPDATE, .PUSH .bool (.bool true), .PUSH .nat (.num .nat 2), .UPDATE]) []
+    = .ok [.set .nat [.num .nat 2, .num .nat 5]] :=
+  run_ok env0 20 _ [] _ (by rfl)
+-- an ill-formed (unsorted) set is outside the reference rules, and its literal is not a well-formed literal
+example : Spec.eval true env0 20 (.seq [.PUSH (.set .int) (.set .int [.num .int 3, .num .int 1]), .PUSH .int (.num .int 1), .MEM]) [] = .err := by rfl
+example : Typing.literalsOk (.PUSH (.set .int) (.set .int [.num .int 3, .num .int 1])) = false := by rfl
+
 end C01
